@@ -220,6 +220,8 @@ def new_effect(doc, st, r):
             kw[prop] = q(r, 0, 160)
     if r.random() < 0.3:
         kw['opaque_mode'] = material.OPAQUE_MODE.RGB_ZERO
+    if params and r.random() < 0.4:
+        kw['bumpmap'] = material.Map(params[1], r.choice(['UV', 'BUMPUV']))
     return material.Effect(st.fresh('effect'), params, r.choice(['phong', 'lambert', 'blinn', 'constant']),
                            double_sided=r.random() < 0.3, **kw)
 
@@ -295,10 +297,48 @@ def new_scene(doc, st, r):
     return scene.Scene(st.fresh('scene'), [new_node(doc, st, r) for _ in range(r.choice([0, 1, 2, 3]))])
 
 
+def exh_members(doc, st, site, n, offset=0):
+    """n fresh members for the collection of an exhaustive single-save case"""
+    from collada import scene, light
+    out = []
+    for i in range(n):
+        k = i + offset
+        if site in ('scene', 'node_ch'):
+            out.append(scene.Node(st.fresh('x')))
+        elif site == 'node_tr':
+            out.append(scene.TranslateTransform(float(k + 1), 0.0, 0.5 * k) if k % 2 == 0 else scene.ScaleTransform(1.0 + k, 2.0, 1.0))
+        else:
+            out.append(light.AmbientLight(st.fresh('x'), (1, 1, 1)))
+    return out
+
+
+def exh_collection(doc, site):
+    if site == 'scene':
+        return doc.scenes[0].nodes
+    if site == 'node_tr':
+        return doc.scenes[0].nodes[0].transforms
+    if site == 'node_ch':
+        return doc.scenes[0].nodes[0].children
+    return doc.lights
+
+
 def build_base(base, st):
     import collada
     if base['kind'] == 'file':
         return collada.Collada(os.path.join(data_dir(), base['name']))
+    if base['kind'] == 'exh':
+        from collada import scene
+        doc = collada.Collada()
+        site = base['site']
+        root = scene.Node('root')
+        sc = scene.Scene('s', [root] if site != 'scene' else [])
+        doc.scenes.append(sc)
+        doc.scene = sc
+        old = exh_members(doc, st, site, base['old'])
+        doc._verif_old = old
+        coll = exh_collection(doc, site)
+        coll.extend(old)
+        return doc
     r = random.Random(base['seed'])
     doc = collada.Collada()
     size = base.get('size', 2)
@@ -489,6 +529,14 @@ def apply_op(doc, st, op, out):
         before = capture_children(doc)
         doc.write(io.BytesIO())
         out['sites'].extend(site_observations(doc, before))
+        return
+    if t == 'exh_set':
+        # the collection becomes an arbitrary arrangement of old members and fresh ones
+        site = op['site']
+        fresh = exh_members(doc, st, site, 2, offset=10)
+        new = [doc._verif_old[x] if isinstance(x, int) else fresh[int(x[1:])] for x in op['new']]
+        coll = exh_collection(doc, site)
+        coll[:] = new
         return
     if t == 'lib':
         lib = op['lib']
@@ -689,6 +737,14 @@ def apply_op(doc, st, op, out):
             for p in e.params:
                 if isinstance(p, material.Surface) and r.random() < 0.2:
                     p.id = st.fresh('surfrenamed')
+            samplers = [p for p in e.params if isinstance(p, material.Sampler2D)]
+            k = r.random()
+            if e.bumpmap is not None and (k < 0.3 or not any(e.bumpmap.sampler is x for x in samplers)):
+                e.bumpmap = None
+            elif e.bumpmap is not None and k < 0.6:
+                e.bumpmap.texcoord = r.choice(['UV', 'BUMP2'])
+            elif e.bumpmap is None and samplers and k < 0.4:
+                e.bumpmap = material.Map(r.choice(samplers), 'BUMPUV')
             for p in e.params:
                 if isinstance(p, material.Sampler2D) and r.random() < 0.5:
                     p.minfilter = r.choice([None, 'LINEAR', 'NEAREST'])
@@ -902,7 +958,8 @@ def snap_camera(c):
 def snap_effect(e):
     from collada import material
     d = {'id': e.id, 'shadingtype': e.shadingtype, 'double_sided': bool(e.double_sided), 'opaque_mode': e.opaque_mode,
-         'props': {p: snap_value(getattr(e, p)) for p in e.supported}, 'params': []}
+         'props': {p: snap_value(getattr(e, p)) for p in e.supported}, 'params': [],
+         'bumpmap': snap_value(e.bumpmap)}
     for p in e.params:
         if isinstance(p, material.Surface):
             d['params'].append(['surface', p.id, p.image.id, p.format])
@@ -1147,7 +1204,9 @@ def read_effect_xml(e):
             params.append(['sampler2D', np_.get('sid'), sm.find(T('source')).text,
                            mn.text if mn is not None else None, mg.text if mg is not None else None])
     ds = e.find('.//%s//%s' % (T('extra'), T('double_sided')))
-    return {'id': e.get('id'), 'shadingtype': shader.tag.split('}')[1] if shader is not None else None,
+    bump = e.find('.//%s//%s' % (T('extra'), T('texture')))
+    return {'id': e.get('id'), 'bumpmap': None if bump is None else {'map': [bump.get('texture'), bump.get('texcoord')]},
+            'shadingtype': shader.tag.split('}')[1] if shader is not None else None,
             'shaders_present': shaders_present,
             'double_sided': ds is not None and (ds.text or '').strip() == '1', 'opaque_mode': opaque,
             'props': props, 'params': params}
